@@ -1,6 +1,7 @@
 import Isotp
 import Isotp.Sock
 import Isotp.Threaded
+import Isotp.Spec.Segment
 /-
   Line-protocol driver: reads one operation per line on stdin, executes it on the model,
   prints exactly one output line per input line. See harness/proto.md.
@@ -423,6 +424,13 @@ def step (d : Drv) (line : String) : Drv × String :=
           | .cf sn p => s!"cf {sn} {hexOf p} {r.canDl} {r.rxDl}"
           | .fc fs bs stm => s!"fc {fs} {bs} {stm} {stminNs stm} {r.canDl} {r.rxDl}")
     | _, _ => (d, "bad-op")
+  | ["specseg", txdl, minlen, pad, pre, hex] =>
+    -- the Lean reference segmentation the C02/C01 theorems are stated against
+    match txdl.toNat?, parseHex pre, parseHex hex with
+    | some dl, some pr, some data =>
+      let c : Spec.TxCfg := { txDl := dl, minLen := parseOptNat minlen, padding := parseOptNat pad, pre := pr }
+      (d, " ".intercalate ((Spec.segment c data).map hexOf))
+    | _, _, _ => (d, "bad-op")
   | [] => (d, "")
   | _ => (d, "bad-op")
 
